@@ -97,6 +97,23 @@ CHECKS["C19"] = ("pure", "exploration",
     "through their pure comparison parts.",
     "DESIGN.md 4/C19")
 
+CHECKS["C01"] = ("chain", "exploration",
+    "differential testing between replicas over generated block histories, execution paths and local configurations (rapid)",
+    "The real ABCI multiplexer with all eight consensus applications is driven in-process by a small generated consensus-engine model: production-mode genesis documents, 8-40 (quick) / 150 (thorough) blocks of "
+    "generated transactions, votes, evidence and time gaps; 3-4 replicas on both node-database backends with different local settings; each block every replica takes a generated path (propose with cached "
+    "results, process-proposal, process-another-proposal-first, plain replay), disk-backed replicas are restarted at generated heights and one replica gets side traffic (CheckTx, EstimateGas, state reads) "
+    "at generated points between ABCI calls. Every height all replicas must agree on AppHash, per-transaction results and validator updates (as a set), and accept the proposal. Running the replicas in one "
+    "process also samples different Go map iteration orders (a seeded unsorted-map mutant is caught this way).",
+    "Interleavings are harness-scheduled between ABCI calls, not true thread interleavings; CheckTx is never issued during Commit. Runtime (roothash) transactions are not generated yet.",
+    "DESIGN.md 3.2, 4/C01")
+CHECKS["C05"] = ("chain", "exploration",
+    "history invariant recomputed with big integers after every block (rapid) + in-tree sanity checker as second opinion",
+    "Generated economy-heavy block histories on the real multiplexer (fees with all fee-split weights, rewards, commission, slashing through evidence, delegations at share prices != 1, debonding, governance "
+    "deposits, burns, allowances, vaults; zero and 2^255-scale amounts; reserved and equal addresses). After every commit the complete staking ledger is read back and the supply equation, per-pool share sums and "
+    "'total supply changes only by the burn events of that block' are recomputed with math/big.",
+    "Observed at block boundaries only. The supplementary sanity checker is registered on the same replica and a failure of it is reported under its own signature.",
+    "DESIGN.md 4/C05")
+
 NOT_APPLICABLE = {
 }
 
